@@ -158,5 +158,50 @@ theorem run_noEvict (ops : List Op) (hdo : deliveryOnly ops) (hb : blockCount op
     (run ops).evicted = [] :=
   runFrom_noEvict ops init 0 hdo (by simp [init]) (by omega) rfl
 
+/-! ### the executable Spec used by the driver is sound for the relational Spec -/
+
+/-- whatever `Spec.chainWork` computes is the work of a valid delivered chain avoiding `X` -/
+theorem chainWork_sound (D : List BlockAbs) (X : List Hash) :
+    ∀ (fuel : Nat) (h : Hash) (w : Nat), chainWork D X fuel h = some w → ValidChainEx D X h w := by
+  intro fuel
+  induction fuel with
+  | zero => intro h w hw; simp [chainWork] at hw
+  | succ f ih =>
+    intro h w hw
+    unfold chainWork at hw
+    by_cases h0 : h = 0
+    · subst h0
+      simp at hw
+      subst hw
+      exact ValidChainEx.genesis
+    · have h0' : (h == 0) = false := by simpa using h0
+      simp only [h0', Bool.false_eq_true, if_false] at hw
+      cases hx : X.contains h with
+      | true =>
+        simp only [hx, if_true] at hw
+        cases hw
+      | false =>
+        simp only [hx, Bool.false_eq_true, if_false] at hw
+        cases hf : D.find? (fun b => b.hash == h) with
+        | none => simp [hf] at hw
+        | some b =>
+          simp only [hf] at hw
+          have hbD : b ∈ D := List.mem_of_find?_eq_some hf
+          have hbh : b.hash = h := by
+            have := List.find?_some hf
+            simpa using this
+          cases hok : b.ok with
+          | false => simp [hok] at hw
+          | true =>
+            simp only [hok, if_true] at hw
+            cases hr : chainWork D X f b.parent with
+            | none => simp [hr] at hw
+            | some w' =>
+              simp only [hr] at hw
+              cases hw
+              have := ValidChainEx.step hbD hok (by rw [hbh]; simpa using hx) (ih b.parent w' hr)
+              rw [hbh] at this
+              exact this
+
 end Lemmas
 end BV.C02
